@@ -386,6 +386,26 @@ theorem mapM_mem {α β : Type} (f : α → Option (List β)) (l : List α) (css
         · obtain ⟨r', hr', hsub⟩ := ih rs hr ha
           exact ⟨r', hr', fun c hc => by simp [hsub c hc]⟩
 
+theorem mapM_mem_out {α β : Type} (f : α → Option β) (l : List α) (rs : List β)
+    (h : l.mapM f = some rs) : ∀ r ∈ rs, ∃ a ∈ l, f a = some r := by
+  induction l generalizing rs with
+  | nil => simp at h; subst h; simp
+  | cons x xs ih =>
+    simp only [List.mapM_cons, Option.pure_def, Option.bind_eq_bind] at h
+    cases hf : f x with
+    | none => simp [hf] at h
+    | some r0 =>
+      cases hr : xs.mapM f with
+      | none => simp [hf, hr] at h
+      | some rs' =>
+        simp [hf, hr] at h; subst h
+        intro r hr'
+        simp only [List.mem_cons] at hr'
+        rcases hr' with rfl | hr'
+        · exact ⟨x, by simp, hf⟩
+        · obtain ⟨a, ha, hfa⟩ := ih rs' hr r hr'
+          exact ⟨a, List.mem_cons_of_mem _ ha, hfa⟩
+
 /-! ### who can end up in the discharge queue -/
 
 theorem mem_byTicket (dms : List (Mac B)) (ticket : B) (ds : List (Mac B)) (h : byTicket dms ticket = some ds) :
